@@ -15,6 +15,8 @@ META = {
         "frees the connection exactly once, returning BS_CLOSED; len == 0 frees without sending; the status switch has a "
         "default and each case's text carries its own code; free_connection closes the reader before freeing the connection; "
         "(4) the error status is chosen before on_url returns failure (every -1 return of on_url is preceded by a status store); "
+        "(7) R-FINI: every transport error handler reaches buffered_socket_close() on every path; http_parser is compiled in strict mode "
+        "(request-line and header syntax is delegated to it); "
         "(5) R-ORDER: callbacks taken from a url_handler are installed into the parser settings only on paths where the handler "
         "has no create() hook or where create() has been called and did not fail (they work on the object create() makes)."),
     "not_decided": "http_parser's own parsing; memory of connections that never send a complete line (read buffer bounds: C09)",
@@ -247,6 +249,36 @@ def clause6_target(ctx, P):
            "the target (e.g. '/api') is upgraded like the target itself" % why)
 
 
+def clause7_error_handlers(ctx, P, cg):
+    """every transport error handler (the function a buffered socket calls on a read/write error or an over-long line)
+    releases the connection on EVERY path - in whatever protocol phase the error arrives"""
+    key = ("struct.buffered_socket", P.field_index("struct.buffered_socket", "error"))
+    hs = sorted(cg.field_funcs.get(key, ()))
+    if len(hs) < 3:
+        raise AnalysisBroken("transport error handlers discovered: %s" % [P.srcname_of(h) for h in hs])
+    for hn in hs:
+        h = P.functions[hn]
+        bad = None
+        n = 0
+        for v in Q.path_views(ctx, P, h):
+            n += 1
+            closes = False
+            for _, i in v.calls():
+                for t in cg.targets(h, i):
+                    if P.srcname_of(t) == "buffered_socket_close" or any(P.srcname_of(x) == "buffered_socket_close" for x in cg.reach(t)):
+                        closes = True
+            if not closes:
+                bad = v
+        ctx.ob("C13.7 R-FINI", h, "error-handler-releases-the-connection", bad is None and n > 0,
+               "%s has a path that does not reach buffered_socket_close(): a transport error in that state (e.g. before the upgrade "
+               "completed) leaves the descriptor registered and the connection allocated" % h.srcname, witness=bad.witness() if bad else None)
+    # request-line and header syntax is delegated to http_parser's strict mode
+    strict = Q.macro(P, "http_parser.c", "HTTP_PARSER_STRICT")
+    ctx.ob("C13.3 R-TABLE", P.fn("http_connection.c:read_start_line"), "parser-strict-mode", strict == 1,
+           "http_parser is compiled with HTTP_PARSER_STRICT=%s: cjet has no request-line / header-name checks of its own, so malformed "
+           "lines are only refused in strict mode" % strict)
+
+
 def run(ctx):
     for cfg in ctx.configs(["default"] if ctx.tier == "quick" else None):
         P, cg = cfg.P, cfg.cg
@@ -256,3 +288,4 @@ def run(ctx):
         clause4_status(ctx, P)
         clause5_callbacks(ctx, P, cg)
         clause6_target(ctx, P)
+        clause7_error_handlers(ctx, P, cg)
